@@ -230,7 +230,7 @@ def run(rep: Report, tier: str, seed: int) -> None:
     groups.append((units, Opts(convert=True)))
 
     rep.rule = (
-        "(a) 33 Safe-DS keyword table entries (verbatim where Python allows + 'kw_' which conversion turns into the keyword) and 13 identifier shapes in 19 positions x naming conversion off/on;"
+        f"(a) 33 Safe-DS keyword table entries (verbatim where Python allows + 'kw_' which conversion turns into the keyword) and 13 identifier shapes in {len(POSITIONS)} positions x naming conversion off/on;"
         " (b) string defaults (typed/untyped) and Literal values over all strings of length <=%d over an 11-character alphabet of special characters, 13 number spellings;"
         " (c) %s of 15 documentation fragments on 8 element kinds x 4 docstring styles; (d) structural letters. One case per module; distinct = distinct (case label, options)"
         % (2 if tier == "thorough" else 1, "singles and ordered pairs" if tier == "thorough" else "singles")
